@@ -213,10 +213,11 @@ theorem default_patterns_wf :
 
 /-- non-vacuity (test): carbonyl `C(=O)` properly embeds into aldehyde `RC(=O)H`; the theorem gives the
     key comparison, which agrees with the computed one -/
-example : embeds Gen.C07.mapper Gen.C07.cfg0.pattern Gen.C07.cfg1.pattern = true ∧
-    embeds Gen.C07.mapper Gen.C07.cfg1.pattern Gen.C07.cfg0.pattern = false ∧
-    lexLt (key3 Gen.C07.cfg0.pattern) (key3 Gen.C07.cfg1.pattern) = true ∧
-    key3 Gen.C07.cfg0.pattern = [2, 2, 1] ∧ key3 Gen.C07.cfg1.pattern = [3, 4, 3] := by decide +kernel
+example : (match Gen.C07.configs.find? (·.name == "carbonyl"), Gen.C07.configs.find? (·.name == "aldehyde") with
+    | some a, some b =>
+      embeds Gen.C07.mapper a.pattern b.pattern && !embeds Gen.C07.mapper b.pattern a.pattern &&
+      lexLt (key3 a.pattern) (key3 b.pattern) && key3 a.pattern == [2, 2, 1] && key3 b.pattern == [3, 4, 3]
+    | _, _ => false) = true := by decide +kernel
 
 /-- test: why `wildClean` is needed — with `ignore_case` a pattern `r` (not producible by the parser)
     embeds properly into `R-R`, yet its `pattern_len` is larger -/
